@@ -43,11 +43,13 @@ METHODS = ["quantile", "bc", "bca"]
 
 def bounds(tier):
     if tier == "quick":
-        return {"sizes": [[1, 1], [2, 1], [1, 2], [2, 2], [3, 1]], "easy": [[0, 0], [1, 2]], "supply": len(SUPPLY),
-                "nb_points": NBP, "alphas": ALPHAS, "methods": METHODS, "menu_sequences": 27, "builtin_nb_samples": 1}
-    return {"sizes": [[1, 1], [2, 1], [1, 2], [2, 2], [3, 1], [1, 3], [3, 2], [2, 3]], "easy": [[0, 0], [1, 2], [8, 0]],
+        return {"sizes": [[1, 1], [2, 1], [1, 2], [2, 2], [3, 1]], "easy": [[0, 0], [1, 2], [3, 4]], "supply": len(SUPPLY),
+                "nb_points": NBP, "alphas": ALPHAS, "methods": METHODS, "menu_sequences": 27, "builtin_nb_samples": 1,
+                "big_sizes": [[5, 1], [1, 6]]}
+    return {"sizes": [[1, 1], [2, 1], [1, 2], [2, 2], [3, 1], [1, 3], [3, 2], [2, 3]], "easy": [[0, 0], [1, 2], [3, 4], [8, 0], [11, 12]],
             "supply": len(SUPPLY), "nb_points": NBP + [9], "alphas": ALPHAS + [0.9], "methods": METHODS,
-            "menu_sequences": 27, "builtin_nb_samples": 2}
+            "menu_sequences": 27, "builtin_nb_samples": 2,
+            "big_sizes": [[5, 1], [1, 6], [10, 1], [1, 13], [14, 1], [2, 15], [7, 2], [22, 1]]}
 
 
 def work(tier, seed):
@@ -59,6 +61,11 @@ def work(tier, seed):
             for ep, en in b["easy"]:
                 items.append({"blocks": [list(x) for x in bl], "easy": [ep, en], "rot": k})
                 k += 1
+    # larger classes (the rounding of (n-1)/n in the rule-of-three trigger depends on n): tie-free order types only
+    for P, Q in b["big_sizes"]:
+        for bl in ot.order_types(P, Q, P, Q, tie_free=True):
+            items.append({"blocks": [list(x) for x in bl], "easy": [0, 0], "rot": k})
+            k += 1
     return items
 
 
@@ -83,13 +90,18 @@ def rule_of_three(p, ci, alpha, n_options):
     return [tuple(ci)]
 
 
-def envelope(x, dx, dy):
-    """Plain-Python envelope: own rectangle plus every rectangle whose x-range covers x[i]."""
+def envelope(x, dx, dy, slack=0.0):
+    """
+    Plain-Python envelope: own rectangle plus every rectangle whose x-range covers x[i].
+    slack > 0 also counts rectangles that miss x[i] by less than slack, slack < 0 only those that cover it
+    with that margin (the envelope is discontinuous in the interval end points, which are interpolated
+    quantiles: a one-ulp difference in an end point must not decide the verdict).
+    """
     out = []
     for i in range(len(x)):
         lo, hi = dy[i][0], dy[i][1]
         for j in range(len(x)):
-            if dx[j][0] <= x[i] <= dx[j][1]:
+            if dx[j][0] - slack <= x[i] <= dx[j][1] + slack:
                 lo, hi = min(lo, dy[j][0]), max(hi, dy[j][1])
         out.append((lo, hi))
     return out
@@ -122,8 +134,8 @@ def reference_bands(src, curve, samples, alpha, method, n_variant):
             cis.append(rule_of_three(float(rates[i]), rr, alpha, [n])[0])
         out.append(cis)
     fnr_ci, fpr_ci = out
-    fpr_band = envelope(fnr.tolist(), fnr_ci, fpr_ci)
-    fnr_band = envelope(fpr.tolist(), fpr_ci, fnr_ci)
+    fpr_band = (envelope(fnr.tolist(), fnr_ci, fpr_ci, -1e-9), envelope(fnr.tolist(), fnr_ci, fpr_ci, 1e-9))
+    fnr_band = (envelope(fpr.tolist(), fpr_ci, fnr_ci, -1e-9), envelope(fpr.tolist(), fpr_ci, fnr_ci, 1e-9))
     return fnr_ci, fpr_ci, fnr_band, fpr_band, illcond
 
 
@@ -163,11 +175,28 @@ def compare_bands(ctx, case, src, r, samples, alpha, method, pointwise_only=Fals
         if ill:
             ctx.add("bca_pole_skipped")
             return
-        want_fnr = np.array(fnr_ci if pointwise_only else fnr_band, dtype=float).reshape(-1, 2)
-        want_fpr = np.array(fpr_ci if pointwise_only else fpr_band, dtype=float).reshape(-1, 2)
-        if (want_fnr.shape == got_fnr.shape and np.allclose(got_fnr, want_fnr, rtol=0, atol=1e-9)
-                and np.allclose(got_fpr, want_fpr, rtol=0, atol=1e-9)):
-            return
+        if pointwise_only:
+            want_fnr = np.array(fnr_ci, dtype=float).reshape(-1, 2)
+            want_fpr = np.array(fpr_ci, dtype=float).reshape(-1, 2)
+            if (want_fnr.shape == got_fnr.shape and np.allclose(got_fnr, want_fnr, rtol=0, atol=1e-9)
+                    and np.allclose(got_fpr, want_fpr, rtol=0, atol=1e-9)):
+                return
+        else:
+            good = True
+            for got, (tight, loose) in ((got_fnr, fnr_band), (got_fpr, fpr_band)):
+                tight = np.array(tight, dtype=float).reshape(-1, 2)
+                loose = np.array(loose, dtype=float).reshape(-1, 2)
+                if tight.shape != got.shape:
+                    good = False
+                    break
+                # loose envelope contains the band, the band contains the tight envelope
+                if not (np.all(got[:, 0] >= loose[:, 0] - 1e-9) and np.all(got[:, 0] <= tight[:, 0] + 1e-9)
+                        and np.all(got[:, 1] <= loose[:, 1] + 1e-9) and np.all(got[:, 1] >= tight[:, 1] - 1e-9)):
+                    good = False
+                    break
+            if good:
+                return
+            want_fnr, want_fpr = np.array(fnr_band[0], dtype=float), np.array(fpr_band[0], dtype=float)
         matches.append((want_fnr, want_fpr))
     ctx.fail("band-equals-envelope-of-pointwise-rectangles" if not pointwise_only else "pointwise-intervals",
              case, observed=[got_fnr, got_fpr], expected=[matches[0][0], matches[0][1]])
@@ -274,7 +303,7 @@ def run(item, ctx, tier, seed):
                 compare_bands(ctx, dict(case, function=fname), src, r, [menu[k] for k in seq], alpha, method,
                               pointwise_only=fname != "roc_with_ci")
         # ---------------- built-in samplers under the RNG answer tree
-        if ci_ == rot % 4:
+        if ci_ == rot % 4 and len(pos) + len(neg) <= 4:
             n_s = b["builtin_nb_samples"]
             for mode, strat in (("replacement", "by_label"), ("replacement", None), ("single_pass", "by_label")):
                 if strat is None and len(pos) + len(neg) + ep + en > 4:
